@@ -26,9 +26,10 @@ META = {
     "design_ref": "4/C25",
 }
 
+chanpair.instrument()
 W, P = 32768, 4096
 PRE = ["open", "shutdown_write", "closed", "peer_eof", "peer_close", "lost"]
-EVENTS = [None, "peer_close", "shutdown_write", "close", "lost"]
+EVENTS = [None, "peer_close", "shutdown_write", "close", "lost", "empty_adjusts"]
 STEP_BUDGET = 60000
 
 
@@ -57,6 +58,8 @@ def make_body(scn):
             a._unlink()
         cp.deliver_all()
         a.settimeout(timeout)
+        a._vlog = []
+        t_start = S.now()
         base = len(cp.ta.packetizer.sent)
         out = {}
 
@@ -80,6 +83,18 @@ def make_body(scn):
                 a.close()
             elif ev == "lost":
                 a._unlink()
+            elif ev == "empty_adjusts":
+                pings[0] = 4
+
+        pings = [0]
+
+        def ping():
+            # a peer that sends window adjustments of zero bytes: wakes the sender, opens nothing
+            from paramiko.message import Message
+            m = Message()
+            m.add_int(0)
+            m.rewind()
+            a._window_adjust(m)
 
         th = vthreading.Thread(target=caller)
         s.branching = True
@@ -96,10 +111,14 @@ def make_body(scn):
                 raise S.Livelock("environment loop exceeded 400 rounds")
             if not fired:
                 # environment choice: fire the disturbing event now (alternative 1) or later (0)
-                if s.choose(2, ("later", event), cost=1) == 1:
+                c = s.choose(3, ("later", event, "deliveries-then-" + event + "-in-the-same-step"), cost=1)
+                if c == 1:
                     fire(event)
                     fired = True
                     continue
+                fire_after = c == 2
+            else:
+                fire_after = False
             progressed = False
             if cp.outbox("A") or cp.outbox("B"):
                 cp.deliver_all()
@@ -114,6 +133,11 @@ def make_body(scn):
                 if cp.outbox("B"):
                     cp.deliver_all()
                     progressed = True
+            if fire_after:
+                # the window adjustment and the event both land before the caller runs again
+                fire(event)
+                fired = True
+                continue
             if progressed:
                 idle_rounds = 0
                 continue
@@ -128,6 +152,12 @@ def make_body(scn):
                 out["legit_block"] = True
                 a._unlink()
                 continue
+            if pings[0] > 0:
+                pings[0] -= 1
+                s.advance(0.75)
+                if th.is_alive():
+                    ping()
+                continue
             if timeout is None:
                 # nothing in flight, reader drained, no event left, no timer: the caller can never wake
                 raise S.Deadlock("sendall blocked with no timeout and nothing left to happen")
@@ -138,6 +168,8 @@ def make_body(scn):
             raise th._vt_rec.obj
         data = sum(len(p[2][1]) for p in map(chanpair.parse, cp.ta.packetizer.sent[base:])
                    if p[0] in (MSG_CHANNEL_DATA, MSG_CHANNEL_EXTENDED_DATA))
+        out["elapsed"] = S.now() - t_start
+        out["alloc_after_shut"] = chanpair.allocations_after_shutdown(a)
         return out, data, fired and event is not None
     return body
 
@@ -156,6 +188,13 @@ def judge(scn, ex):
             return "returns-non-None", {"ret": repr(out["ret"])}
         if data != size:
             return "returned-with-data-unsent", {"sent": data, "len": size}
+        if out.get("alloc_after_shut"):
+            # it took window (and sent) after the write side had been shut down: it had to raise
+            return "returned-normally-although-shut-down-for-writing", {"allocations_after_shutdown": out["alloc_after_shut"]}
+    if timeout not in (None,) and window == "never" and not out.get("legit_block"):
+        # no window was ever granted during the call: a timed call may stall for `timeout`, not longer
+        if out.get("elapsed", 0) > timeout + 0.5:
+            return "timed-call-stalls-beyond-timeout", {"elapsed": out["elapsed"], "timeout": timeout}
     return None
 
 
@@ -181,6 +220,8 @@ def scenarios(tier):
                         if window == "reader" and size <= W:
                             continue
                         events = EVENTS if pre in ("open", "peer_eof") else [None]
+                        if window != "never" or timeout is None:
+                            events = [e for e in events if e != "empty_adjusts"]
                         if tier == "quick" and call == "sendall_stderr" and size == 3 * P:
                             continue
                         for ev in events:
